@@ -186,7 +186,7 @@ func (i UInt8) ExponentiateUInt8(other UInt8) UInt8 {
 	}
 	result := i
 	var j UInt8
-	for j = 2; j <= other; j++ {
+	for j = other; j > 1; j-- {
 		result *= i
 	}
 	return result
